@@ -39,6 +39,8 @@ type Query {
   countdown(n: Int): String
   search(opts: Opts): String
   searchIn(opts: Opts): String
+  shout(word: String = "hey", times: Int = 2): String
+  url: String
   account: Account
   member: Node
   accountVal: Account
@@ -321,6 +323,16 @@ func (q *Query) Search(opts map[string]interface{}) string {
 	return b.String()
 }
 
+// Shout is a method whose arguments have (non-zero) defaults in the schema. ggql hands a method what the request wrote: an
+// argument the request leaves out reaches the method as the zero value, as it reaches a Resolver as an absent key.
+func (q *Query) Shout(word string, times int) string {
+	called("Query.Shout")
+	return fmt.Sprintf("%q x%d", word, times)
+}
+
+// URL is found for the field url although only the case of ALL its letters differs (Go initialisms).
+func (q *Query) URL() string { called("Query.URL"); return "https://example.org/zoo" }
+
 // OptsIn is a Go struct for the input type Opts that is NOT registered for it: Opts values stay maps.
 type OptsIn struct {
 	Text string
@@ -531,6 +543,7 @@ var Requests = []struct {
 	{`query($o: Opts = {text: "d"}) { search(opts: $o) }`, nil},
 	{`query($o: Opts) { search(opts: $o) }`, map[string]interface{}{"o": map[string]interface{}{"tags": []interface{}{"v"}}}},
 	{`{ searchIn(opts: {text: "q", tags: ["x"]}) }`, nil},
+	{`{ url shout s3: shout(times: 3) s4: shout(word: "ho") }`, nil},
 	{`{ s2: search(opts: {text: "after searchIn"}) }`, nil},
 	{`{ countdown(n: 3) name }`, nil},
 	{`{ motto name self { motto } }`, nil},
